@@ -117,6 +117,44 @@ def gen_dyn_case(rng):
             if cand: k = rng.choice(cand); ops.append('cl %d' % k); live.remove(k)
     return head + ' ;; ' + ' ; '.join(ops)
 
+TEXTS = ['abc', 'abd', 'Foo', 'abc']
+def gen_dyn_case_noregex(rng):
+    """a case of the span-scoped stream for a filter built with regular expressions switched off (`Q` / `B`): some matchers are
+    fixed texts (compared with the Debug output of the recorded value), some recorded values are Debug values (`d:<text>`), and
+    one directive is often given twice (same target, span and fields; another level): the later one replaces the earlier one"""
+    case = gen_dyn_case(rng)
+    head, ops = case.split(' ;; ')
+    t = head.split()
+    ds = [t[i:i + 5] for i in range(1, len(t), 5)]
+    for d in ds:
+        if d[3] != '-':
+            fs = []
+            for f in d[3].split('+'):
+                if '=' in f and rng.random() < 0.6: f = f.split('=')[0] + '=' + rng.choice(TEXTS)
+                fs.append(f)
+            d[3] = '+'.join(fs)
+    dyn = [d for d in ds if d[2] != '-' or d[3] != '-']
+    if dyn and rng.random() < 0.6:
+        d = list(rng.choice(dyn)); d[4] = str(rng.randrange(0, 6)); ds.append(d)
+    mode = 'B' if (t[0] == 'A' or any('+' in d[3] for d in ds)) else 'Q'
+    out = []
+    for op in ops.split(' ; '):
+        w = op.split()
+        if not w: continue
+        if w[0] in ('sp', 'rc') and w[-1] != '-' and rng.random() < 0.6:
+            vs = []
+            for v in w[-1].split('+'):
+                n = v.split('=')[0]
+                vs.append(n + '=d:' + rng.choice(TEXTS) if rng.random() < 0.7 else v)
+            w[-1] = '+'.join(vs)
+        out.append(' '.join(w))
+    return mode + ' ' + ' '.join(' '.join(d) for d in ds) + ' ;; ' + ' ; '.join(out)
+
+def gen_dyn_noregex(rng, tier):
+    n = 1000 if tier == 'quick' else 30000
+    for _ in range(n):
+        yield gen_dyn_case_noregex(rng)
+
 def gen_dyn(rng, tier):
     n = 1500 if tier == 'quick' else 40000
     for _ in range(n):
@@ -210,6 +248,8 @@ def extra(tier, seed, rng, res, broken):
 
 _dyn = Stream('dyn', 'h_envdyn', mode='modeldyn', gen=gen_dyn, nontrivial=nontrivial_dyn, spec_mode='specdyn')
 _dyn.valid_case = valid_dyn
+_dynnr = Stream('dynnoregex', 'h_envdyn', mode='modeldyn', gen=gen_dyn_noregex, nontrivial=nontrivial_dyn, spec_mode='specdyn')
+_dynnr.valid_case = valid_dyn
 
 PROPERTY = {
     'manifest': {
@@ -230,11 +270,12 @@ PROPERTY = {
     'namespace': 'C11',
     'units': [],
     'required_theorems': ['C11.most_specific_wins', 'C11.insert_sorted', 'C11.build_sorted', 'C11.would_enable_agrees_partial', 'C11.f7_witness', 'C11.max_level_bound', 'C11.mem_build',
-                          'C11.dyn_passes_spec', 'C11.enter_inv', 'C11.exit_inv', 'C11.newSpan_inv', 'C11.record_inv', 'C11.close_inv', 'C11.matching_span_always', 'C11.mkEnv_ok', 'C11.static_enabled_le_max'],
+                          'C11.dyn_passes_spec', 'C11.enter_inv', 'C11.exit_inv', 'C11.newSpan_inv', 'C11.record_inv', 'C11.close_inv', 'C11.matching_span_always', 'C11.mkEnv_ok', 'C11.static_enabled_le_max', 'C11.later_directive_replaces'],
     'streams': [
         Stream('targets', 'h_filters', gen=gen_targets, nontrivial=nontrivial),
         Stream('env', 'h_filters', gen=gen_env, nontrivial=nontrivial),
         _dyn,
+        _dynnr,
     ],
     'rule': 'directive strings from the documented grammar: targets with :: paths and shared prefixes (app/application/ap/a), levels by name in random case or digit, bare level / bare target, field-name lists, '
             'duplicates and conflicting entries in any order, malformed pieces; each string is parsed by the real Targets / EnvFilter and queried on 7 targets x 5 levels x span/event x 4 field sets; '
